@@ -91,6 +91,7 @@ type gcPublisher struct {
 	phase   int
 	msgs    []*message.Message
 	batches []int // sizes of the consecutive Publish calls (variadic batches)
+	reuse   bool  // single-message Publish calls all use one message object, refilled after each call returned
 }
 
 type gcWorld struct {
@@ -166,6 +167,7 @@ func gcGenerate(r *Run, o gcOpts) *gcWorld {
 			pb.batches = append(pb.batches, b)
 			left -= b
 		}
+		pb.reuse = t.Chance(1, 3)
 		w.pubs = append(w.pubs, pb)
 	}
 	nSubs := t.Skewed(5)
@@ -219,7 +221,7 @@ func gcGenerate(r *Run, o gcOpts) *gcWorld {
 	}
 	r.Describe("GoChannel{buffer:%d persistent:%v blocking:%v} topics=%d", w.cfg.OutputChannelBuffer, w.cfg.Persistent, w.cfg.BlockPublishUntilSubscriberAck, nTopics)
 	for _, pb := range w.pubs {
-		r.Describe("publisher %d -> %s: %d messages in Publish calls of sizes %v (phase %d)", pb.id, pb.topic, len(pb.msgs), pb.batches, pb.phase)
+		r.Describe("publisher %d -> %s: %d messages in Publish calls of sizes %v (phase %d), reuses one message object=%v", pb.id, pb.topic, len(pb.msgs), pb.batches, pb.phase, pb.reuse)
 	}
 	for _, sb := range w.subs {
 		var pl []string
@@ -250,8 +252,17 @@ func (w *gcWorld) subscribe(s *gcSub) bool {
 
 func (w *gcWorld) publishAll(pb *gcPublisher) {
 	i := 0
+	var carrier *message.Message
 	for _, size := range pb.batches {
 		batch := pb.msgs[i : i+size]
+		if pb.reuse && size == 1 {
+			// the publisher owns its message object again once Publish has returned, and fills it anew
+			if carrier == nil {
+				carrier = message.NewMessage("", nil)
+			}
+			carrier.UUID, carrier.Payload, carrier.Metadata = batch[0].UUID, batch[0].Payload, message.Metadata(copyMeta(batch[0].Metadata))
+			batch = []*message.Message{carrier}
+		}
 		var recs []*gcPubRec
 		var ids []string
 		for k, m := range batch {
